@@ -113,136 +113,11 @@ Proof.
     intros i row N. apply map_ext_in. intros c Ic. rewrite cols_with_columns. apply H; assumption.
 Qed.
 
-(* ------------------------------------------------------------------ inner / left / full *)
-Definition jt_of (how : plhow) : jointype := match how with HInner => JInner | HLeft => JLeft end.
+(* ------------------------------------------------------------------ inner / left / full: every right column kept, every shared column coalesced *)
+Definition jt_of (how : plhow) : jointype := match how with HInner => JInner | HLeft => JLeft | HFull => JFull end.
 
-Section JoinLeft.
-  Variables (how : plhow) (on : list string) (a b : table).
-  Let ca := cols a. Let cb := cols b.
-  Let S := "_da_right_tmp".
-  Let rnk := filter (fun c => negb (mem c on)) cb.
-  Let out := ca ++ map (suffixed ca S) rnk.
-  Let coal := filter (fun c => mem c cb && negb (mem c on)) ca.
-  Let xs := map (fun c => (c, CPlain (coalesce_left_first c (sfx c S)))) coal.
-  Let declared := ca ++ filter (fun c => negb (mem c ca)) cb.
-
-  Hypothesis Ga : good a.
-  Hypothesis Gb : good b.
-  Hypothesis NDo : NoDup out.
-  Hypothesis OnA : forall c, In c on -> In c ca.
-  Hypothesis OnB : forall c, In c on -> In c cb.
-
-  Let cell (row : list val) (c : string) : val :=
-    if mem c coal then (if is_null (get out row c) then get out row (sfx c S) else get out row c) else get out row c.
-
-  Lemma jl_cell_wc r i row c : cols r = out -> nth_error (rows r) i = Some row -> List.length row = List.length out ->
-    get (ext_cols (cols r) (map fst xs)) (wc_row r xs (i, row)) c = cell row c.
-  Proof.
-    intros Cr N L. rewrite wc_row_get by (rewrite Cr; exact L). unfold cell.
-    destruct (mem c coal) eqn:M.
-    - apply mem_In in M.
-      assert (In c (map fst xs)) as I1 by (unfold xs; rewrite map_map; cbn [fst]; rewrite map_id; exact M).
-      destruct (last_for_In c xs I1) as [ke E]. rewrite E. destruct (last_for_Some _ _ _ E) as [F Ik].
-      unfold xs in Ik. apply in_map_iff in Ik. destruct Ik as [c0 [<- I0]]. cbn [fst snd] in *. subst c0.
-      cbn [col_at coalesce_left_first plx_at]. rewrite Cr, (nth_error_nth _ _ [] N). apply pl_when_bool.
-    - rewrite last_for_None; [rewrite Cr; reflexivity|]. apply mem_false in M. unfold xs. rewrite map_map. cbn [fst]. rewrite map_id. exact M.
-  Qed.
-
-  (* cells of the three kinds of joined rows *)
-  Lemma jl_get_left ra X c : In c ca -> List.length ra = List.length ca -> get out (ra ++ X) c = get ca ra c.
-  Proof. intros I L. unfold out. apply get_app_l; assumption. Qed.
-  Lemma jl_get_right ra (g : string -> val) c : In c rnk -> List.length ra = List.length ca ->
-    get out (ra ++ map g rnk) (suffixed ca S c) = g c.
-  Proof.
-    intros I L. unfold out. rewrite get_app_r; [|eapply NoDup_app_notin; [exact NDo|apply in_map; exact I]|exact L].
-    apply get_map_map; [apply (NoDup_app_r _ _ NDo)|exact I].
-  Qed.
-  Lemma jl_coal_spec c : In c coal <-> In c ca /\ In c cb /\ ~ In c on.
-  Proof. unfold coal. rewrite filter_In, andb_true_iff, negb_true_iff, mem_In, mem_false. tauto. Qed.
-  Lemma jl_rnk_spec c : In c rnk <-> In c cb /\ ~ In c on.
-  Proof. unfold rnk. rewrite filter_In, negb_true_iff, mem_false. tauto. Qed.
-  Lemma jl_sfx_coal c : In c coal -> sfx c S = suffixed ca S c.
-  Proof. intros I. apply jl_coal_spec in I. unfold suffixed, sfx. destruct I as [I _]. apply mem_In in I. rewrite I. reflexivity. Qed.
-  Lemma jl_sfx_new c : ~ In c ca -> suffixed ca S c = c.
-  Proof. intros N. unfold suffixed. apply mem_false in N. rewrite N. reflexivity. Qed.
-
-  (* the cell of a joined row built from a left part L (cells la) and right values g *)
-  Lemma jl_cell_generic rowl (la : string -> val) (g : string -> val) c :
-    List.length rowl = List.length ca -> (forall c0, In c0 ca -> get ca rowl c0 = la c0) -> In c declared ->
-    cell (rowl ++ map g rnk) c =
-      if mem c ca then (if mem c cb && negb (mem c on) then (if is_null (la c) then g c else la c) else la c) else g c.
-  Proof.
-    intros L La Ic. unfold cell.
-    destruct (mem c ca) eqn:Mca.
-    - apply mem_In in Mca. destruct (mem c coal) eqn:Mco.
-      + apply mem_In in Mco. pose proof Mco as Mco'. apply jl_coal_spec in Mco'. destruct Mco' as [_ [Icb Non]].
-        apply mem_In in Icb. apply mem_false in Non. rewrite Icb, Non. cbn [andb negb].
-        rewrite (jl_get_left rowl _ c Mca L), (La c Mca), (jl_sfx_coal c Mco).
-        rewrite (jl_get_right rowl g c); [reflexivity| |exact L]. apply jl_rnk_spec. apply mem_In in Icb. apply mem_false in Non. tauto.
-      + rewrite (jl_get_left rowl _ c Mca L), (La c Mca).
-        destruct (mem c cb && negb (mem c on)) eqn:E; [|reflexivity].
-        exfalso. apply mem_false in Mco. apply Mco. apply jl_coal_spec. apply andb_true_iff in E. destruct E as [E1 E2].
-        apply mem_In in E1. apply negb_true_iff, mem_false in E2. tauto.
-    - assert (~ In c ca) as Nca by (apply mem_false; exact Mca).
-      assert (mem c coal = false) as Mco. { apply mem_false. intros I. apply jl_coal_spec in I. tauto. }
-      rewrite Mco. unfold declared in Ic. apply in_app_iff in Ic. destruct Ic as [Ic|Ic]; [tauto|].
-      apply filter_In in Ic. destruct Ic as [Icb _].
-      assert (In c rnk) as Ir. { apply jl_rnk_spec. split; [exact Icb|]. intros Io. apply Nca, OnA, Io. }
-      rewrite <- (jl_sfx_new c Nca) at 1. apply jl_get_right; assumption.
-  Qed.
-
-  Lemma join_left_body t2 :
-    rbind (pl_join how on on S a b) (fun r => pl_select declared (with_columns_if r xs)) = Ok t2 ->
-    t2 = sem_join false on on (jt_of how) a b.
-  Proof.
-    intros H. apply rbind_ok in H. destruct H as [r [Hj Hs]].
-    unfold pl_join in Hj. fold ca cb rnk out in Hj.
-    destruct (negb _) in Hj; [discriminate|]. inversion Hj; subst r; clear Hj.
-    apply pl_select_ok in Hs. destruct Hs as [-> _].
-    destruct Ga as [NDa Wa], Gb as [NDb Wb].
-    set (matchp := fun ra rb => keys_match false (key_of ca on ra) (key_of cb on rb)).
-    set (R := mktable out _) in *.
-    assert (width_ok R) as WR.
-    { unfold width_ok, R. cbn [rows cols]. apply Forall_forall. intros row I. unfold out. rewrite app_length, map_length.
-      rewrite !in_app_iff in I. destruct I as [I|I].
-      - apply in_flat_map in I. destruct I as [ra [Ia I]]. apply in_flat_map in I. destruct I as [rb [Ib I]].
-        destruct (keys_match _ _ _); [|destruct I]. destruct I as [<-|[]]. rewrite app_length, map_length. f_equal. apply width_row; assumption.
-      - destruct how; [destruct I|]. apply in_flat_map in I. destruct I as [ra [Ia I]]. destruct (existsb _ _); [destruct I|]. destruct I as [<-|[]].
-        rewrite app_length, map_length. f_equal. apply width_row; assumption. }
-    transitivity (mktable declared (rows (sem_select_cols declared (with_columns_if R xs)))); [reflexivity|].
-    rewrite (rows_select_with_columns declared R xs cell WR).
-    2:{ intros i row c N Ic. apply jl_cell_wc; [reflexivity|exact N|]. apply (width_row R row WR). eapply nth_error_In; eassumption. }
-    unfold sem_join. fold ca cb. change (ca ++ filter (fun c => negb (mem c ca)) cb) with declared. f_equal.
-    unfold R. cbn [rows]. rewrite !map_app.
-    assert (forall ra rb, In ra (rows a) -> In rb (rows b) -> matchp ra rb = true ->
-              map (cell (ra ++ map (get cb rb) rnk)) declared =
-              map (fun c => let va := if mem c ca then get ca ra c else VNull in let vb := if mem c cb then get cb rb c else VNull in if is_null va then vb else va) declared) as Mm.
-    { intros ra rb Ia Ib M. apply map_ext_in. intros c Ic.
-      rewrite (jl_cell_generic ra (get ca ra) (get cb rb) c (width_row _ _ Wa Ia) (fun _ _ => eq_refl) Ic). cbv zeta.
-      destruct (mem c ca) eqn:Mca.
-      2:{ unfold declared in Ic. apply in_app_iff in Ic. destruct Ic as [Ic|Ic]; [apply mem_In in Ic; congruence|].
-          apply filter_In in Ic. destruct Ic as [Icb _]. apply mem_In in Icb. rewrite Icb. reflexivity. }
-      destruct (mem c cb) eqn:Mcb; cbn [andb].
-      - destruct (mem c on) eqn:Mon; cbn [negb]; [|reflexivity].
-        apply mem_In in Mon. rewrite (keys_match_nonnull _ c ca on ra M Mon). reflexivity.
-      - rewrite null_self. reflexivity. }
-    assert (forall ra, In ra (rows a) ->
-              map (cell (ra ++ map (fun _ => VNull) rnk)) declared =
-              map (fun c => let va := if mem c ca then get ca ra c else VNull in let vb := VNull in if is_null va then vb else va) declared) as Ml.
-    { intros ra Ia. apply map_ext_in. intros c Ic.
-      rewrite (jl_cell_generic ra (get ca ra) (fun _ => VNull) c (width_row _ _ Wa Ia) (fun _ _ => eq_refl) Ic). cbv zeta.
-      destruct (mem c ca) eqn:Mca; [|reflexivity]. destruct (mem c cb && negb (mem c on)); [reflexivity|]. rewrite null_self. reflexivity. }
-    f_equal.
-    - rewrite map_flat_map. apply flat_map_ext_in. intros ra Ia. rewrite map_flat_map. apply flat_map_ext_in. intros rb Ib.
-      fold (matchp ra rb). destruct (matchp ra rb) eqn:M; [|reflexivity]. cbn [map]. f_equal. apply Mm; assumption.
-    - destruct how; cbn [jt_of]; [reflexivity|]. rewrite app_nil_r. rewrite map_flat_map. apply flat_map_ext_in. intros ra Ia.
-      destruct (existsb _ (rows b)); try reflexivity. cbn [map]. f_equal. apply Ml; assumption.
-  Qed.
-End JoinLeft.
-
-(* ------------------------------------------------------------------ full: every right column kept, every shared column coalesced *)
-Section JoinFull.
-  Variables (on : list string) (a b : table).
+Section JoinKeep.
+  Variables (how : plhow) (on_a on_b : list string) (a b : table).
   Let ca := cols a. Let cb := cols b.
   Let S := "_da_right_tmp".
   Let out := ca ++ map (suffixed ca S) cb.
@@ -300,16 +175,16 @@ Section JoinFull.
       rewrite <- Es at 1. apply jf_get_right; assumption.
   Qed.
 
-  Lemma join_full_body t2 :
-    rbind (pl_join_full_keep on on S a b) (fun r => pl_select declared (with_columns_if r xs)) = Ok t2 ->
-    t2 = sem_join false on on JFull a b.
+  Lemma join_keep_body t2 :
+    rbind (pl_join how on_a on_b S a b) (fun r => pl_select declared (with_columns_if r xs)) = Ok t2 ->
+    t2 = sem_join false on_a on_b (jt_of how) a b.
   Proof.
     intros H. apply rbind_ok in H. destruct H as [r [Hj Hs]].
-    unfold pl_join_full_keep in Hj. fold ca cb out in Hj.
+    unfold pl_join in Hj. fold ca cb out in Hj.
     destruct (negb _) in Hj; [discriminate|]. inversion Hj; subst r; clear Hj.
     apply pl_select_ok in Hs. destruct Hs as [-> _].
     destruct Ga as [NDa Wa], Gb as [NDb Wb].
-    set (matchp := fun ra rb => keys_match false (key_of ca on ra) (key_of cb on rb)).
+    set (matchp := fun ra rb => keys_match false (key_of ca on_a ra) (key_of cb on_b rb)).
     set (R := mktable out _) in *.
     assert (forall rb, In rb (rows b) -> rb = map (get cb rb) cb) as RB.
     { intros rb Ib. symmetry. apply get_map_self; [exact NDb|apply width_row; assumption]. }
@@ -318,9 +193,9 @@ Section JoinFull.
       rewrite !in_app_iff in I. destruct I as [I|[I|I]].
       - apply in_flat_map in I. destruct I as [ra [Ia I]]. apply in_flat_map in I. destruct I as [rb [Ib I]].
         destruct (keys_match _ _ _); [|destruct I]. destruct I as [<-|[]]. rewrite app_length. f_equal; apply width_row; assumption.
-      - apply in_flat_map in I. destruct I as [ra [Ia I]]. destruct (existsb _ _); [destruct I|]. destruct I as [<-|[]].
-        rewrite app_length, map_length. f_equal. apply width_row; assumption.
-      - apply in_flat_map in I. destruct I as [rb [Ib I]]. destruct (existsb _ _); [destruct I|]. destruct I as [<-|[]].
+      - destruct how; [destruct I| |]; apply in_flat_map in I; destruct I as [ra [Ia I]]; (destruct (existsb _ _); [destruct I|]); destruct I as [<-|[]];
+          rewrite app_length, map_length; f_equal; apply width_row; assumption.
+      - destruct how; [destruct I|destruct I|]. apply in_flat_map in I. destruct I as [rb [Ib I]]. destruct (existsb _ _); [destruct I|]. destruct I as [<-|[]].
         rewrite app_length, map_length. f_equal. apply width_row; assumption. }
     transitivity (mktable declared (rows (sem_select_cols declared (with_columns_if R xs)))); [reflexivity|].
     rewrite (rows_select_with_columns declared R xs cell WR).
@@ -357,12 +232,12 @@ Section JoinFull.
     f_equal; [|f_equal].
     - rewrite map_flat_map. apply flat_map_ext_in. intros ra Ia. rewrite map_flat_map. apply flat_map_ext_in. intros rb Ib.
       fold (matchp ra rb). destruct (matchp ra rb) eqn:M; [|reflexivity]. cbn [map]. f_equal. apply Mm; assumption.
-    - rewrite map_flat_map. apply flat_map_ext_in. intros ra Ia.
-      destruct (existsb _ (rows b)); try reflexivity. cbn [map]. f_equal. apply Ml; assumption.
-    - rewrite map_flat_map. apply flat_map_ext_in. intros rb Ib.
+    - destruct how; cbn [jt_of]; try reflexivity; rewrite map_flat_map; apply flat_map_ext_in; intros ra Ia;
+        destruct (existsb _ (rows b)); try reflexivity; cbn [map]; f_equal; apply Ml; assumption.
+    - destruct how; cbn [jt_of]; try reflexivity. rewrite map_flat_map. apply flat_map_ext_in. intros rb Ib.
       destruct (existsb _ (rows a)); try reflexivity. cbn [map]. f_equal. apply Mr; assumption.
   Qed.
-End JoinFull.
+End JoinKeep.
 
 (* ------------------------------------------------------------------ right join, simulated by a left join of b with a *)
 Lemma v_eqv_null_same x y : v_eqv x y = true -> is_null x = is_null y.
@@ -381,22 +256,17 @@ Lemma map_eq_In {A B} (f g : A -> B) l x : map f l = map g l -> In x l -> f x = 
 Proof. induction l as [|y t IH]; simpl; intros E I; [destruct I|]. inversion E. destruct I as [->|I]; auto. Qed.
 
 Section JoinRight.
-  Variables (on : list string) (a b : table).
+  Variables (on_a on_b : list string) (a b : table).
   Let ca := cols a. Let cb := cols b.
   Let S := "_da_left_tmp".
-  Let rnk := filter (fun c => negb (mem c on)) ca.
-  Let out := cb ++ map (suffixed cb S) rnk.
-  Let coal := filter (fun c => mem c cb && negb (mem c on)) ca.
+  Let out := cb ++ map (suffixed cb S) ca.
+  Let coal := filter (fun c => mem c cb) ca.
   Let xs := map (fun c => (c, CPlain (PWhen (PIsNull (PCol (sfx c S))) (PCol c) (PCol (sfx c S))))) coal.
   Let declared := ca ++ filter (fun c => negb (mem c ca)) cb.
 
   Hypothesis Ga : good a.
   Hypothesis Gb : good b.
   Hypothesis NDo : NoDup out.
-  Hypothesis OnA : forall c, In c on -> In c ca.
-  Hypothesis OnB : forall c, In c on -> In c cb.
-  Hypothesis KeyRepr : forall ra rb, In ra (rows a) -> In rb (rows b) ->
-    keys_eqv (key_of ca on ra) (key_of cb on rb) = true -> key_of ca on ra = key_of cb on rb.
 
   Let cell (row : list val) (c : string) : val :=
     if mem c coal then (if is_null (get out row (sfx c S)) then get out row c else get out row (sfx c S)) else get out row c.
@@ -414,14 +284,10 @@ Section JoinRight.
     - rewrite last_for_None; [rewrite Cr; reflexivity|]. apply mem_false in M. unfold xs. rewrite map_map. cbn [fst]. rewrite map_id. exact M.
   Qed.
 
-  Lemma jr_coal_spec c : In c coal <-> In c ca /\ In c cb /\ ~ In c on.
-  Proof. unfold coal. rewrite filter_In, andb_true_iff, negb_true_iff, mem_In, mem_false. tauto. Qed.
-  Lemma jr_rnk_spec c : In c rnk <-> In c ca /\ ~ In c on.
-  Proof. unfold rnk. rewrite filter_In, negb_true_iff, mem_false. tauto. Qed.
   Lemma jr_get_left rb X c : In c cb -> List.length rb = List.length cb -> get out (rb ++ X) c = get cb rb c.
   Proof. intros I L. unfold out. apply get_app_l; assumption. Qed.
-  Lemma jr_get_right rb (g : string -> val) c : In c rnk -> List.length rb = List.length cb ->
-    get out (rb ++ map g rnk) (suffixed cb S c) = g c.
+  Lemma jr_get_right rb (g : string -> val) c : In c ca -> List.length rb = List.length cb ->
+    get out (rb ++ map g ca) (suffixed cb S c) = g c.
   Proof.
     intros I L. unfold out. rewrite get_app_r; [|eapply NoDup_app_notin; [exact NDo|apply in_map; exact I]|exact L].
     apply get_map_map; [apply (NoDup_app_r _ _ NDo)|exact I].
@@ -429,150 +295,105 @@ Section JoinRight.
 
   Lemma jr_cell_generic rowb (lb g : string -> val) c :
     List.length rowb = List.length cb -> (forall c0, In c0 cb -> get cb rowb c0 = lb c0) -> In c declared ->
-    cell (rowb ++ map g rnk) c =
-      if mem c ca then (if mem c cb then (if mem c on then lb c else (if is_null (g c) then lb c else g c)) else g c) else lb c.
+    cell (rowb ++ map g ca) c = if mem c ca then (if mem c cb then (if is_null (g c) then lb c else g c) else g c) else lb c.
   Proof.
     intros L Lb Ic. unfold cell.
     destruct (mem c ca) eqn:Mca.
-    - apply mem_In in Mca. destruct (mem c coal) eqn:Mco.
-      + apply mem_In in Mco. apply jr_coal_spec in Mco. destruct Mco as [_ [Icb Non]].
-        assert (In c rnk) as Ir by (apply jr_rnk_spec; tauto).
-        assert (sfx c S = suffixed cb S c) as Es. { unfold suffixed, sfx. apply mem_In in Icb. rewrite Icb. reflexivity. }
-        rewrite Es, (jr_get_right rowb g c Ir L), (jr_get_left rowb _ c Icb L), (Lb c Icb).
-        apply mem_In in Icb. apply mem_false in Non. rewrite Icb, Non. reflexivity.
-      + destruct (mem c cb) eqn:Mcb.
-        * apply mem_In in Mcb. rewrite (jr_get_left rowb _ c Mcb L), (Lb c Mcb).
-          destruct (mem c on) eqn:Mon; [reflexivity|]. exfalso. apply mem_false in Mco. apply Mco. apply jr_coal_spec.
-          apply mem_false in Mon. tauto.
-        * assert (~ In c cb) as Ncb by (apply mem_false; exact Mcb).
-          assert (In c rnk) as Ir. { apply jr_rnk_spec. split; [exact Mca|]. intros Io. apply Ncb, OnB, Io. }
-          assert (suffixed cb S c = c) as Es. { unfold suffixed. rewrite Mcb. reflexivity. }
-          rewrite <- Es at 1. apply jr_get_right; assumption.
+    - apply mem_In in Mca. destruct (mem c cb) eqn:Mcb.
+      + assert (mem c coal = true) as Mco. { apply mem_In. unfold coal. apply filter_In. split; [exact Mca|exact Mcb]. }
+        rewrite Mco. apply mem_In in Mcb.
+        assert (sfx c S = suffixed cb S c) as Es. { unfold suffixed, sfx. apply mem_In in Mcb. rewrite Mcb. reflexivity. }
+        rewrite Es, (jr_get_right rowb g c Mca L), (jr_get_left rowb _ c Mcb L), (Lb c Mcb). reflexivity.
+      + assert (mem c coal = false) as Mco. { apply mem_false. intros I. unfold coal in I. apply filter_In in I. destruct I as [_ I]. congruence. }
+        rewrite Mco. assert (suffixed cb S c = c) as Es. { unfold suffixed. rewrite Mcb. reflexivity. }
+        rewrite <- Es at 1. apply jr_get_right; assumption.
     - assert (~ In c ca) as Nca by (apply mem_false; exact Mca).
-      assert (mem c coal = false) as Mco. { apply mem_false. intros I. apply jr_coal_spec in I. tauto. }
+      assert (mem c coal = false) as Mco. { apply mem_false. intros I. unfold coal in I. apply filter_In in I. tauto. }
       rewrite Mco. unfold declared in Ic. apply in_app_iff in Ic. destruct Ic as [Ic|Ic]; [tauto|].
       apply filter_In in Ic. destruct Ic as [Icb _]. rewrite (jr_get_left rowb _ c Icb L). apply Lb. exact Icb.
   Qed.
 
   Lemma join_right_body t2 :
-    rbind (pl_join HLeft on on S b a) (fun r => pl_select declared (with_columns_if r xs)) = Ok t2 ->
-    cols t2 = declared /\ Permutation (rows t2) (rows (sem_join false on on JRight a b)).
+    rbind (pl_join HLeft on_b on_a S b a) (fun r => pl_select declared (with_columns_if r xs)) = Ok t2 ->
+    cols t2 = declared /\ Permutation (rows t2) (rows (sem_join false on_a on_b JRight a b)).
   Proof.
     intros H. apply rbind_ok in H. destruct H as [r [Hj Hs]].
-    unfold pl_join in Hj. fold ca cb rnk out in Hj.
+    unfold pl_join in Hj. fold ca cb out in Hj.
     destruct (negb _) in Hj; [discriminate|]. inversion Hj; subst r; clear Hj.
     apply pl_select_ok in Hs. destruct Hs as [-> _]. split; [reflexivity|].
     destruct Ga as [NDa Wa], Gb as [NDb Wb].
     set (R := mktable out _) in *.
+    assert (forall ra, In ra (rows a) -> ra = map (get ca ra) ca) as RA.
+    { intros ra Ia. symmetry. apply get_map_self; [exact NDa|apply width_row; assumption]. }
     assert (width_ok R) as WR.
     { unfold width_ok, R. cbn [rows cols]. apply Forall_forall. intros row I. unfold out. rewrite app_length, map_length.
-      rewrite !in_app_iff in I. destruct I as [I|I].
+      rewrite !in_app_iff in I. destruct I as [I|[I|I]]; [| |destruct I].
       - apply in_flat_map in I. destruct I as [rb [Ib I]]. apply in_flat_map in I. destruct I as [ra [Ia I]].
-        destruct (keys_match _ _ _); [|destruct I]. destruct I as [<-|[]]. rewrite app_length, map_length. f_equal. apply width_row; assumption.
+        destruct (keys_match _ _ _); [|destruct I]. destruct I as [<-|[]]. rewrite app_length. f_equal; apply width_row; assumption.
       - apply in_flat_map in I. destruct I as [rb [Ib I]]. destruct (existsb _ _); [destruct I|]. destruct I as [<-|[]].
         rewrite app_length, map_length. f_equal. apply width_row; assumption. }
     rewrite (rows_select_with_columns declared R xs cell WR).
     2:{ intros i row c N Ic. apply jr_cell_wc; [reflexivity|exact N|]. apply (width_row R row WR). eapply nth_error_In; eassumption. }
     unfold sem_join. fold ca cb. change (ca ++ filter (fun c => negb (mem c ca)) cb) with declared. cbn [rows].
-    unfold R. cbn [rows]. rewrite !map_app. cbn [app map].
+    unfold R. cbn [rows]. rewrite !map_app. cbn [app map]. rewrite app_nil_r.
     set (mk := fun (ra rb : option (list val)) =>
                  map (fun c => let va := match ra with Some r => if mem c ca then get ca r c else VNull | None => VNull end in
                                let vb := match rb with Some r => if mem c cb then get cb r c else VNull | None => VNull end in
                                if is_null va then vb else va) declared).
-    assert (forall ra rb, In ra (rows a) -> In rb (rows b) -> keys_match false (key_of cb on rb) (key_of ca on ra) = true ->
-              map (cell (rb ++ map (get ca ra) rnk)) declared = mk (Some ra) (Some rb)) as Mm.
-    { intros ra rb Ia Ib M. unfold mk. apply map_ext_in. intros c Ic.
+    assert (forall ra rb, In ra (rows a) -> In rb (rows b) -> map (cell (rb ++ ra)) declared = mk (Some ra) (Some rb)) as Mm.
+    { intros ra rb Ia Ib. rewrite (RA ra Ia) at 1. unfold mk. apply map_ext_in. intros c Ic.
       rewrite (jr_cell_generic rb (get cb rb) (get ca ra) c (width_row _ _ Wb Ib) (fun _ _ => eq_refl) Ic). cbv zeta.
       destruct (mem c ca) eqn:Mca.
-      2:{ unfold declared in Ic. apply in_app_iff in Ic. destruct Ic as [Ic|Ic]; [apply mem_In in Ic; congruence|].
-          apply filter_In in Ic. destruct Ic as [Icb _]. apply mem_In in Icb. rewrite Icb. reflexivity. }
-      destruct (mem c cb) eqn:Mcb; [|rewrite null_self; reflexivity].
-      destruct (mem c on) eqn:Mon; [|reflexivity]. apply mem_In in Mon.
-      rewrite keys_match_false_sym in M.
-      rewrite (keys_match_nonnull _ c ca on ra M Mon).
-      assert (key_of ca on ra = key_of cb on rb) as KE.
-      { apply KeyRepr; try assumption. unfold keys_match in M. apply andb_true_iff in M. tauto. }
-      symmetry. apply (map_eq_In (get ca ra) (get cb rb) on c KE Mon). }
-    assert (forall rb, In rb (rows b) -> map (cell (rb ++ map (fun _ => VNull) rnk)) declared = mk None (Some rb)) as Mr.
+      - destruct (mem c cb); [reflexivity|]. rewrite null_self. reflexivity.
+      - unfold declared in Ic. apply in_app_iff in Ic. destruct Ic as [Ic|Ic]; [apply mem_In in Ic; congruence|].
+        apply filter_In in Ic. destruct Ic as [Icb _]. apply mem_In in Icb. rewrite Icb. reflexivity. }
+    assert (forall rb, In rb (rows b) -> map (cell (rb ++ map (fun _ => VNull) ca)) declared = mk None (Some rb)) as Mr.
     { intros rb Ib. unfold mk. apply map_ext_in. intros c Ic.
       rewrite (jr_cell_generic rb (get cb rb) (fun _ => VNull) c (width_row _ _ Wb Ib) (fun _ _ => eq_refl) Ic). cbv zeta. cbn [is_null].
       destruct (mem c ca) eqn:Mca.
-      - destruct (mem c cb); [|reflexivity]. destruct (mem c on); reflexivity.
+      - destruct (mem c cb); reflexivity.
       - unfold declared in Ic. apply in_app_iff in Ic. destruct Ic as [Ic|Ic]; [apply mem_In in Ic; congruence|].
         apply filter_In in Ic. destruct Ic as [Icb _]. apply mem_In in Icb. rewrite Icb. reflexivity. }
     apply Permutation_app.
     - rewrite map_flat_map.
-      eapply perm_trans; [|apply (flat_map_swap (fun rb ra => if keys_match false (key_of ca on ra) (key_of cb on rb) then [mk (Some ra) (Some rb)] else []) (rows b) (rows a))].
-      rewrite (flat_map_ext_in _ (fun rb => flat_map (fun ra => if keys_match false (key_of ca on ra) (key_of cb on rb) then [mk (Some ra) (Some rb)] else []) (rows a)) (rows b));
+      eapply perm_trans; [|apply (flat_map_swap (fun rb ra => if keys_match false (key_of ca on_a ra) (key_of cb on_b rb) then [mk (Some ra) (Some rb)] else []) (rows b) (rows a))].
+      rewrite (flat_map_ext_in _ (fun rb => flat_map (fun ra => if keys_match false (key_of ca on_a ra) (key_of cb on_b rb) then [mk (Some ra) (Some rb)] else []) (rows a)) (rows b));
         [apply Permutation_refl|].
       intros rb Ib. rewrite map_flat_map. apply flat_map_ext_in. intros ra Ia.
-      rewrite (keys_match_false_sym (key_of ca on ra) (key_of cb on rb)).
-      destruct (keys_match false (key_of cb on rb) (key_of ca on ra)) eqn:M; [|reflexivity]. cbn [map]. f_equal. apply Mm; assumption.
+      rewrite (keys_match_false_sym (key_of ca on_a ra) (key_of cb on_b rb)).
+      destruct (keys_match false (key_of cb on_b rb) (key_of ca on_a ra)) eqn:M; [|reflexivity]. cbn [map]. f_equal. apply Mm; assumption.
     - rewrite map_flat_map.
-      rewrite (flat_map_ext_in _ (fun rb => if existsb (fun ra => keys_match false (key_of ca on ra) (key_of cb on rb)) (rows a) then [] else [mk None (Some rb)]) (rows b));
+      rewrite (flat_map_ext_in _ (fun rb => if existsb (fun ra => keys_match false (key_of ca on_a ra) (key_of cb on_b rb)) (rows a) then [] else [mk None (Some rb)]) (rows b));
         [apply Permutation_refl|].
       intros rb Ib.
-      rewrite (existsb_ext_in _ (fun ra => keys_match false (key_of ca on ra) (key_of cb on rb)) (rows a)) by (intros ra _; apply keys_match_false_sym).
+      rewrite (existsb_ext_in _ (fun ra => keys_match false (key_of ca on_a ra) (key_of cb on_b rb)) (rows a)) by (intros ra _; apply keys_match_false_sym).
       destruct (existsb _ (rows a)); [reflexivity|]. cbn [map]. f_equal. apply Mr. exact Ib.
   Qed.
 End JoinRight.
 
 (* ------------------------------------------------------------------ the step *)
 Lemma pl_join_checks how l_on r_on sfx0 a b r : pl_join how l_on r_on sfx0 a b = Ok r ->
-  NoDup (cols a ++ map (suffixed (cols a) sfx0) (filter (fun c => negb (mem c r_on)) (cols b))) /\
-  (forall c, In c l_on -> In c (cols a)) /\ (forall c, In c r_on -> In c (cols b)).
-Proof.
-  unfold pl_join. destruct (negb _) eqn:E; [discriminate|]. intros _. apply negb_false_iff in E.
-  apply andb_true_iff in E. destruct E as [E E4]. apply andb_true_iff in E. destruct E as [E E3]. apply andb_true_iff in E. destruct E as [E1 E2].
-  split; [apply nodupb_NoDup; exact E1|]. rewrite forallb_forall in E3, E4. split; intros c I; apply mem_In; auto.
-Qed.
-Lemma pl_join_full_checks l_on r_on sfx0 a b r : pl_join_full_keep l_on r_on sfx0 a b = Ok r ->
   NoDup (cols a ++ map (suffixed (cols a) sfx0) (cols b)).
 Proof.
-  unfold pl_join_full_keep. destruct (negb _) eqn:E; [discriminate|]. intros _. apply negb_false_iff in E.
+  unfold pl_join. destruct (negb _) eqn:E; [discriminate|]. intros _. apply negb_false_iff in E.
   apply andb_true_iff in E. destruct E as [E E4]. apply andb_true_iff in E. destruct E as [E E3]. apply andb_true_iff in E. destruct E as [E1 E2].
   apply nodupb_NoDup; exact E1.
 Qed.
 
-Lemma join_step_perm declared on jt a b t2 :
-  good a -> good b ->
+Lemma join_step_perm declared on_a on_b jt a b t2 :
+  good a -> good b -> on_a <> [] ->
   declared = cols a ++ filter (fun c => negb (mem c (cols a))) (cols b) ->
-  (jt = JRight -> forall ra rb, In ra (rows a) -> In rb (rows b) ->
-     keys_eqv (key_of (cols a) on ra) (key_of (cols b) on rb) = true -> key_of (cols a) on ra = key_of (cols b) on rb) ->
-  pl_join_step declared (cols a) (cols b) on on jt a b = Ok t2 ->
-  cols t2 = declared /\ Permutation (rows t2) (rows (sem_join false on on jt a b)).
+  pl_join_step declared (cols a) (cols b) on_a on_b jt a b = Ok t2 ->
+  cols t2 = declared /\ Permutation (rows t2) (rows (sem_join false on_a on_b jt a b)).
 Proof.
-  intros Ga Gb -> KR H. unfold pl_join_step in H. rewrite ?filter_self_notin in H. cbn [map with_columns_if] in H.
+  intros Ga Gb NE -> H. unfold pl_join_step in H. destruct on_a as [|k0 on_a0]; [congruence|]. cbv iota zeta in H.
   destruct jt.
-  - (* inner *)
-    assert (rbind (pl_join HInner on on "_da_right_tmp" a b)
-              (fun r => pl_select (cols a ++ filter (fun c => negb (mem c (cols a))) (cols b))
-                 (with_columns_if r (map (fun c => (c, CPlain (coalesce_left_first c (sfx c "_da_right_tmp"))))
-                    (filter (fun c => mem c (cols b) && negb (mem c on)) (cols a))))) = Ok t2) as H'.
-    { destruct (pl_join HInner on on "_da_right_tmp" a b); exact H. }
-    pose proof H' as H''. apply rbind_ok in H''. destruct H'' as [r [Ej _]].
-    destruct (pl_join_checks _ _ _ _ _ _ _ Ej) as [N [A B]].
-    rewrite (join_left_body HInner on a b Ga Gb N A t2 H'). split; [reflexivity|apply Permutation_refl].
-  - (* left *)
-    assert (rbind (pl_join HLeft on on "_da_right_tmp" a b)
-              (fun r => pl_select (cols a ++ filter (fun c => negb (mem c (cols a))) (cols b))
-                 (with_columns_if r (map (fun c => (c, CPlain (coalesce_left_first c (sfx c "_da_right_tmp"))))
-                    (filter (fun c => mem c (cols b) && negb (mem c on)) (cols a))))) = Ok t2) as H'.
-    { destruct (pl_join HLeft on on "_da_right_tmp" a b); exact H. }
-    pose proof H' as H''. apply rbind_ok in H''. destruct H'' as [r [Ej _]].
-    destruct (pl_join_checks _ _ _ _ _ _ _ Ej) as [N [A B]].
-    rewrite (join_left_body HLeft on a b Ga Gb N A t2 H'). split; [reflexivity|apply Permutation_refl].
-  - (* right *)
-    assert (rbind (pl_join HLeft on on "_da_left_tmp" b a)
-              (fun r => pl_select (cols a ++ filter (fun c => negb (mem c (cols a))) (cols b))
-                 (with_columns_if r (map (fun c => (c, CPlain (PWhen (PIsNull (PCol (sfx c "_da_left_tmp"))) (PCol c) (PCol (sfx c "_da_left_tmp")))))
-                    (filter (fun c => mem c (cols b) && negb (mem c on)) (cols a))))) = Ok t2) as H'.
-    { destruct (pl_join HLeft on on "_da_left_tmp" b a); exact H. }
-    pose proof H' as H''. apply rbind_ok in H''. destruct H'' as [r [Ej _]].
-    destruct (pl_join_checks _ _ _ _ _ _ _ Ej) as [N [B A]].
-    apply (join_right_body on a b Ga Gb N B (KR eq_refl) t2 H').
-  - (* full *)
-    pose proof H as H''. apply rbind_ok in H''. destruct H'' as [r [Ej _]].
-    pose proof (pl_join_full_checks _ _ _ _ _ _ Ej) as N.
-    rewrite (join_full_body on a b Ga Gb N t2 H). split; [reflexivity|apply Permutation_refl].
+  - pose proof H as H''. apply rbind_ok in H''. destruct H'' as [r [Ej _]]. pose proof (pl_join_checks _ _ _ _ _ _ _ Ej) as N.
+    rewrite (join_keep_body HInner (k0 :: on_a0) on_b a b Ga Gb N t2 H). split; [reflexivity|apply Permutation_refl].
+  - pose proof H as H''. apply rbind_ok in H''. destruct H'' as [r [Ej _]]. pose proof (pl_join_checks _ _ _ _ _ _ _ Ej) as N.
+    rewrite (join_keep_body HLeft (k0 :: on_a0) on_b a b Ga Gb N t2 H). split; [reflexivity|apply Permutation_refl].
+  - pose proof H as H''. apply rbind_ok in H''. destruct H'' as [r [Ej _]]. pose proof (pl_join_checks _ _ _ _ _ _ _ Ej) as N.
+    apply (join_right_body (k0 :: on_a0) on_b a b Ga Gb N t2 H).
+  - pose proof H as H''. apply rbind_ok in H''. destruct H'' as [r [Ej _]]. pose proof (pl_join_checks _ _ _ _ _ _ _ Ej) as N.
+    rewrite (join_keep_body HFull (k0 :: on_a0) on_b a b Ga Gb N t2 H). split; [reflexivity|apply Permutation_refl].
 Qed.
